@@ -57,6 +57,10 @@ def damaged_script(draw, max_statements=3):
     laid = draw(grammar.script(1, max_statements, comments=10))
     text, clean, spans, marks = grammar.assemble(laid)
     k = draw(st.integers(0, 3))
+    # a statement cut off in the middle of an expression: a dangling operator, sign, sigil or opener at the very end
+    cut = draw(st.sampled_from(['', '', '', ' -', ' +', ' = -', ', @', ' where a = -', ' and', ' (', ' , ', ' ::', ' as', ' *', ' between 1 and', ' in (', ' ||', ' not']))
+    if cut:
+        text = text.rstrip().rstrip(';') + cut
     if not clean or k == 0:
         return text
     edits = sorted({draw(st.integers(0, len(clean) - 1)) for _ in range(k)}, reverse=True)
